@@ -159,8 +159,41 @@ def restStages (cfg : Cfg) (ord : List Path) (rs skc : Bool) : List Stage :=
          else [cleanupLocks fixed cfg, globStage isSaveAux ord, globStage isRgAux ord])))))
 
 theorem stages_eq (cfg : Cfg) (ord : List Path) (rs sk : Bool) :
-    stages fixed cfg ord rs sk = paramsStage rs :: restStages cfg ord rs (sk || cfg.fromSaves) := by
+    stages fixed cfg ord rs sk = paramsStage rs :: refStage fixed cfg rs :: restStages cfg ord rs (sk || cfg.fromSaves) := by
   simp [stages, restStages, fixed, unalOK]
+
+/-- the events of the reference stage of the repaired code: every run (resumed or not) unpacks the reference again -/
+def refEvents (cfg : Cfg) : List Ev :=
+  if cfg.gzRef then [.create .refFa, .commit .refFa .stale, .commit .refFa .good] else []
+
+/-- the reference stage (repaired code): whatever file carries the name of the unpacked copy — nothing, the complete copy
+    of this run, a partial copy left by a kill, the copy of another reference left by an earlier run — is rewritten
+    before it is read; the stage completes, keeps the invariant at every prefix and touches no other file -/
+theorem ref_stage {cfg : Cfg} (rs : Bool) {fs : FS} (h : J cfg fs) :
+    Good cfg fs (runActs (refStage fixed cfg rs fs) fs) ∧
+      (runActs (refStage fixed cfg rs fs) fs).evs = refEvents cfg ∧
+      (∀ p, p ≠ .refFa → (runActs (refStage fixed cfg rs fs) fs).fs p = fs p) ∧
+      (cfg.gzRef = true → (runActs (refStage fixed cfg rs fs) fs).fs.good .refFa = true) := by
+  unfold refStage refEvents
+  cases hg : cfg.gzRef with
+  | false =>
+    simp only [Bool.not_false, if_true, Bool.false_eq_true, if_false]
+    exact ⟨good_nil h, rfl, fun _ _ => rfl, fun e => absurd e (by simp)⟩
+  | true =>
+    simp only [fixed, Bool.not_true, Bool.false_and, Bool.false_eq_true, if_false, if_true]
+    have hck : ChecksOK (evs [.create .refFa, .commit .refFa .stale, .commit .refFa .good] ++ [Act.load .refFa]) fs := by
+      simp [evs, ChecksOK, apply, Ev.path, Ev.val, good_set]
+    have hev : eventsOf (evs [.create .refFa, .commit .refFa .stale, .commit .refFa .good] ++ [Act.load .refFa]) =
+        [.create .refFa, .commit .refFa .stale, .commit .refFa .good] := by simp [evs, eventsOf]
+    have hJ : AllP (J cfg) fs [.create .refFa, .commit .refFa .stale, .commit .refFa .good] :=
+      allJ_of_bodyOK (L := []) h (by simp [bodyOK, isLock, locksOf, Ev.path]) (by simp)
+    obtain ⟨g, hfs⟩ := good_of_checks hck (by rw [hev]; exact hJ)
+    rw [hev] at hfs
+    have hevs : (runActs (evs [.create .refFa, .commit .refFa .stale, .commit .refFa .good] ++ [Act.load .refFa]) fs).evs =
+        [.create .refFa, .commit .refFa .stale, .commit .refFa .good] := by rw [(runActs_of_checks hck).2, hev]
+    refine ⟨g, hevs, fun p hp => ?_, fun _ => ?_⟩
+    · rw [hfs]; simp [applyAll, apply, Ev.path, FS.set, hp]
+    · rw [hfs]; simp [applyAll, apply, Ev.path, Ev.val, good_set]
 
 /-- from a state satisfying the invariant, everything after `.params` completes, keeps the invariant at every
     prefix and leaves every final file complete and correct -/
@@ -168,7 +201,8 @@ theorem rest_run {cfg : Cfg} (wf : WF cfg) (ord : List Path) (hord : ord.Nodup) 
     (hskrs : sk = true → rs = true) (hsk : sk = true → fs.has .lock = true)
     (hnsk : sk = false → cfg.fromSaves = false → rs = true → fs.has .lock = false)
     (hsv : cfg.fromSaves = true → SavesOK cfg fs)
-    (hnp0 : cfg.fromSaves = true → rs = false → ∀ c ∈ cfg.chrs, fs.has (.processed c) = false) :
+    (hnp0 : cfg.fromSaves = true → rs = false → ∀ c ∈ cfg.chrs, fs.has (.processed c) = false)
+    (href : refOK cfg fs = true) :
     Good cfg fs (runStages (restStages cfg ord rs (sk || cfg.fromSaves)) fs) ∧
       FinOK cfg (runStages (restStages cfg ord rs (sk || cfg.fromSaves)) fs).fs := by
   unfold restStages
@@ -190,7 +224,9 @@ theorem rest_run {cfg : Cfg} (wf : WF cfg) (ord : List Path) (hord : ord.Nodup) 
   have hnp1 : cfg.fromSaves = true → rs = false → ∀ c ∈ cfg.chrs,
       (runActs (rgStage cfg rs fs) fs).fs.has (.processed c) = false := by
     intro e e' c hc; rw [FS.has, f1 _ rfl]; exact hnp0 e e' c hc
-  clear g1 f1 hsk hnsk h hsv hnp0
+  have href1 : refOK cfg (runActs (rgStage cfg rs fs) fs).fs = true := by
+    simp only [refOK, FS.good] at href ⊢; rw [f1 _ rfl]; exact href
+  clear g1 f1 hsk hnsk h hsv hnp0 href
   generalize (runActs (rgStage cfg rs fs) fs).fs = fs1 at *
   -- stale locks
   obtain ⟨g2, f2, r2, e2, n2⟩ := collectPre_stage wf rs skc j1
@@ -219,10 +255,12 @@ theorem rest_run {cfg : Cfg} (wf : WF cfg) (ord : List Path) (hord : ord.Nodup) 
       exact ((n2 (by simp [e, hq'])).2 c hc).2
   have hsv2 : cfg.fromSaves = true → SavesOK cfg (runActs (collectPre cfg rs skc fs1) fs1).fs := by
     intro e; rw [e2 (by subst hskc; simp [e])]; exact hsv1 e
-  clear g2 f2 r2 e2 n2 rg1 hsk1 hnsk1 j1 hsv1 hnp1
+  have href2 : refOK cfg (runActs (collectPre cfg rs skc fs1) fs1).fs = true := by
+    simp only [refOK, FS.good] at href1 ⊢; rw [f2 _ rfl]; exact href1
+  clear g2 f2 r2 e2 n2 rg1 hsk1 hnsk1 j1 hsv1 hnp1 href1
   generalize (runActs (collectPre cfg rs skc fs1) fs1).fs = fs2 at *
   -- collection per chromosome
-  obtain ⟨g3, p3, f3⟩ := collect_loop rs skc cfg.chrs (fun c hc => hc) wf.nd j2 rg2 hnl2 hnc2
+  obtain ⟨g3, p3, f3⟩ := collect_loop rs skc cfg.chrs (fun c hc => hc) wf.nd j2 rg2 hnl2 hnc2 href2
   have j3 := good_J_stages g3
   refine seq_append (Q := FinOK cfg) g3 ?_
   have hsk3 : sk = true → (runStages (cfg.chrs.map (collectChr fixed cfg rs skc)) fs2).fs.has .lock = true := by
@@ -243,7 +281,9 @@ theorem rest_run {cfg : Cfg} (wf : WF cfg) (ord : List Path) (hord : ord.Nodup) 
       | nil => rfl
       | cons c cs ih => simp only [List.map_cons, runStages, collectChr, if_true, runActs]; exact ih
     rw [hsame]; exact hsv2 e
-  clear g3 f3 rg2 hsk2 hnl2 hnc2 hnp2 j2 hsv2
+  have href3 : refOK cfg (runStages (cfg.chrs.map (collectChr fixed cfg rs skc)) fs2).fs = true := by
+    simp only [refOK, FS.good] at href2 ⊢; rw [f3 _ (fun _ _ => rfl)]; exact href2
+  clear g3 f3 rg2 hsk2 hnl2 hnc2 hnp2 j2 hsv2 href2
   generalize (runStages (cfg.chrs.map (collectChr fixed cfg rs skc)) fs2).fs = fs3 at *
   -- multimappers, info, stage lock
   obtain ⟨g4, l4, e4, f4⟩ := collectPost_stage skc j3 hnl3 p3
@@ -258,7 +298,9 @@ theorem rest_run {cfg : Cfg} (wf : WF cfg) (ord : List Path) (hord : ord.Nodup) 
       · rw [e4 hq]; exact hsv3 hf
     · have hq' : skc = false := by simpa using hq
       exact savesOK_of_lock j4 (l4 hq')
-  clear g4 f4 hsk3 hnl3 hnp3 p3 j3 l4 e4 hsv3
+  have href4 : refOK cfg (runActs (collectPost cfg skc fs3) fs3).fs = true := by
+    simp only [refOK, FS.good] at href3 ⊢; rw [f4 _ rfl]; exact href3
+  clear g4 f4 hsk3 hnl3 hnp3 p3 j3 l4 e4 hsv3 href3
   generalize (runActs (collectPost cfg skc fs3) fs3).fs = fs4 at *
   -- final files opened
   obtain ⟨g5, f5⟩ := constructPre_stage j4 sv4
@@ -268,10 +310,12 @@ theorem rest_run {cfg : Cfg} (wf : WF cfg) (ord : List Path) (hord : ord.Nodup) 
     savesOK_frame sv4 (f5 _ rfl) (fun _ => f5 _ rfl) (fun _ => f5 _ rfl)
   have hnp5 : rs = false → ∀ c ∈ cfg.chrs, (runActs (constructPre cfg fs4) fs4).fs.has (.processed c) = false := by
     intro e c hc; rw [FS.has, f5 _ rfl]; exact hnp4 e c hc
-  clear g5 f5 sv4 hnp4 j4
+  have href5 : refOK cfg (runActs (constructPre cfg fs4) fs4).fs = true := by
+    simp only [refOK, FS.good] at href4 ⊢; rw [f5 _ rfl]; exact href4
+  clear g5 f5 sv4 hnp4 j4 href4
   generalize (runActs (constructPre cfg fs4) fs4).fs = fs5 at *
   -- model construction per chromosome
-  obtain ⟨g6, p6, f6⟩ := construct_loop rs cfg.chrs (fun c hc => hc) wf.nd j5 sv5 hnp5
+  obtain ⟨g6, p6, f6⟩ := construct_loop rs cfg.chrs (fun c hc => hc) wf.nd j5 sv5 hnp5 href5
   have j6 := good_J_stages g6
   refine seq_append (Q := FinOK cfg) g6 ?_
   have hout6 : ∀ c ∈ cfg.chrs, ∀ d ∈ chrOutputs cfg c,
@@ -332,5 +376,25 @@ theorem rest_run {cfg : Cfg} (wf : WF cfg) (ord : List Path) (hord : ord.Nodup) 
     show (runActs (globStage isRgAux ord fs10) fs10).fs.good p = true
     rw [FS.good, f11 p (by revert hT; cases p <;> simp [Tfin, isRgAux])]
     exact fin10 p hp
+
+/-- `rest_run` with the reference stage in front: everything after `.params` -/
+theorem rest_run_ref {cfg : Cfg} (wf : WF cfg) (ord : List Path) (hord : ord.Nodup) (rs sk : Bool) {fs : FS} (h : J cfg fs)
+    (hskrs : sk = true → rs = true) (hsk : sk = true → fs.has .lock = true)
+    (hnsk : sk = false → cfg.fromSaves = false → rs = true → fs.has .lock = false)
+    (hsv : cfg.fromSaves = true → SavesOK cfg fs)
+    (hnp0 : cfg.fromSaves = true → rs = false → ∀ c ∈ cfg.chrs, fs.has (.processed c) = false) :
+    Good cfg fs (runStages (refStage fixed cfg rs :: restStages cfg ord rs (sk || cfg.fromSaves)) fs) ∧
+      FinOK cfg (runStages (refStage fixed cfg rs :: restStages cfg ord rs (sk || cfg.fromSaves)) fs).fs := by
+  obtain ⟨g0, _, f0, r0⟩ := ref_stage rs h
+  refine seq_cons (Q := FinOK cfg) g0 ?_
+  apply rest_run wf ord hord rs sk (good_J_acts g0) hskrs
+  · intro e; rw [FS.has, f0 _ (by simp)]; exact hsk e
+  · intro e e' e''; rw [FS.has, f0 _ (by simp)]; exact hnsk e e' e''
+  · intro e; exact savesOK_frame (hsv e) (f0 _ (by simp)) (fun _ => f0 _ (by simp)) (fun _ => f0 _ (by simp))
+  · intro e e' c hc; rw [FS.has, f0 _ (by simp)]; exact hnp0 e e' c hc
+  · simp only [refOK, Bool.or_eq_true, Bool.not_eq_true']
+    cases hg : cfg.gzRef with
+    | false => exact Or.inl rfl
+    | true => exact Or.inr (r0 hg)
 
 end IsoVerif.Lemmas.Resume
